@@ -548,7 +548,7 @@ static int parse_binding_parameter(int vp, int nbth, char * binding) {
             }
             position = strchr(position, ';');  /* find the step */
         }
-        if( NULL != position )
+        if( (NULL != position) && (';' == position[0]) )
             position++;  /* skip the ; directly into the step */
         if( (NULL != position) && ('\0' != position[0]) ) {
             arg = strtol(position, NULL, 10);
